@@ -108,7 +108,7 @@ func H_C09_twocalls() {
 	msg := make([]qer, len(qers))
 	copy(msg, qers)
 	s.MarkSessionQer(s.qers)
-	s.MarkSessionQer(msg)
+	s.labelLikeStored(msg) // what the handlers do with the QERs of the message
 	var a, b uint32
 	na, nb := 0, 0
 	for k := range s.qers {
@@ -125,6 +125,24 @@ func H_C09_twocalls() {
 	vAssert("stored-and-message-lists-agree-on-count", na == nb)
 	vAssert("stored-and-message-lists-agree-on-id", vImplies(na == 1, a == b))
 	vCover("two")
+	// a later message (a modification) carries only SOME of the session's QERs,
+	// in its own order: each of them is labelled exactly as the stored one is
+	if n := len(qers); n > 0 {
+		rot, keep := vChoose("msg_rotation", n), 1+vChoose("msg_len", n)
+		var part []qer
+		for k := 0; k < keep; k++ {
+			part = append(part, qers[(rot+k)%n])
+		}
+		s.labelLikeStored(part)
+		for _, m := range part {
+			for _, st := range s.qers {
+				if st.qerID == m.qerID {
+					vAssert("partial-message:each-qer-labelled-as-the-stored-one", (m.qosLevel == SessionQos) == (st.qosLevel == SessionQos))
+				}
+			}
+		}
+		vCover("partial")
+	}
 }
 
 // ---------------------------------------------------------------------------
